@@ -243,3 +243,32 @@ Section Mixed.
     (forall a, ~ PA a -> ~ PB a -> present s' a = present s a /\ forall x, memory s' a x = memory s a x).
   Proof. intros Ap F. apply (interleave mop mres mex mfoot mex_local mex_frame PA PB Ap mfoot_dec). exact F. Qed.
 End Mixed.
+
+(* ---------- the ring of this file is the ring C08 ties to the implementation ---------- *)
+(* Net/Commute.v [ring] (the devices of a group as a list, compared on every C08 run with what a real
+   cycle does to the simulated devices) and [lrw_ring] (stations of a segment) are the same pass:
+   same returned data, same device memories. *)
+Lemma lrw_ring_is_ring conf : forall cs stations s la data,
+  NoDup stations -> length stations = length cs ->
+  (forall i a c, nth_error stations i = Some a -> nth_error cs i = Some c ->
+     present s a = true /\ conf a = c_fs c /\ forall x, memory s a x = c_mem c x) ->
+  snd (lrw_ring conf stations s la data) = snd (ring cs la data) /\
+  Forall2 (fun a m' => forall x, memory (fst (lrw_ring conf stations s la data)) a x = m' x) stations (fst (ring cs la data)).
+Proof.
+  induction cs as [|c r IH]; intros stations s la data ND L H.
+  - destruct stations; [|discriminate]. cbn. split; [reflexivity|constructor].
+  - destruct stations as [|a st]; [discriminate|]. inversion ND as [|? ? Na Nst]; subst.
+    destruct (H 0%nat a c eq_refl eq_refl) as (Pa & Ca & Ma).
+    cbn [lrw_ring ring]. rewrite Pa, Ca.
+    destruct (lrw_dev_ext (c_fs c) data (memory s a) (c_mem c) la Ma) as [D1 M1].
+    destruct (lrw_dev (c_fs c) (memory s a) la data) as [ms ds] eqn:Es.
+    destruct (lrw_dev (c_fs c) (c_mem c) la data) as [mc dc] eqn:Ec. cbn [fst snd] in D1, M1. subst dc.
+    destruct (IH st (set_mem s a ms) la ds Nst ltac:(cbn in L; lia)) as [I1 I2].
+    { intros i b c' Hb Hc. destruct (H (S i) b c' Hb Hc) as (Pb & Cb & Mb). cbn [set_mem present memory].
+      split; [exact Pb|]. split; [exact Cb|]. intros x.
+      destruct (b =? a) eqn:E; [|apply Mb]. apply N.eqb_eq in E. subst b. exfalso. apply Na. eapply nth_error_In. exact Hb. }
+    destruct (ring r la ds) as [mr dr] eqn:Er. cbn [fst snd] in *. split; [exact I1|].
+    constructor; [|exact I2].
+    intros x. destruct (ring_frame conf st (set_mem s a ms) la ds a) as [_ F2]; [intros [X _]; contradiction|].
+    rewrite F2. cbn [set_mem memory]. rewrite N.eqb_refl. apply M1.
+Qed.
